@@ -57,6 +57,33 @@ mod verif_harness {
         if v < min || v > max { None } else { Some(v) }
     }
 
+    /// The same reader over i128, for targets wider than 32 bits.
+    fn ref_int_wide(s: &[u8], signed: bool, min: i128, max: i128) -> Option<i128> {
+        if s.is_empty() {
+            return None;
+        }
+        let (neg, start) = match s[0] {
+            b'+' => (false, 1),
+            b'-' if signed => (true, 1),
+            _ => (false, 0),
+        };
+        if start == s.len() {
+            return None;
+        }
+        let mut acc: i128 = 0;
+        let mut i = start;
+        while i < s.len() {
+            let c = s[i];
+            if !(b'0'..=b'9').contains(&c) {
+                return None;
+            }
+            acc = acc * 10 + (c - b'0') as i128;
+            i += 1;
+        }
+        let v = if neg { -acc } else { acc };
+        if v < min || v > max { None } else { Some(v) }
+    }
+
     fn is_parse_error_for(e: &PathDeserializationError, key: &str, ty: &str) -> bool {
         match e.kind() {
             ErrorKind::ParseErrorAtKey { key: k, expected_type, .. } => k == key && *expected_type == ty,
@@ -88,6 +115,33 @@ mod verif_harness {
             }
         };
     }
+
+    macro_rules! wide_value_law {
+        ($name:ident, $ty:ty, $tyname:literal, $signed:expr, $n:literal) => {
+            fn $name() {
+                #[derive(Deserialize)]
+                struct One {
+                    a: $ty,
+                }
+                let mut buf = [0u8; $n];
+                let s = sym_ascii::<$n>(&mut buf);
+                let params: [(&str, Cow<'_, str>); 1] = [("a", Cow::Borrowed(s))];
+                let r = One::deserialize(PathDeserializer::new(&params));
+                let want = ref_int_wide(s.as_bytes(), $signed, <$ty>::MIN as i128, <$ty>::MAX as i128);
+                match (&r, want) {
+                    (Ok(o), Some(v)) => assert!(o.a as i128 == v, "the field holds a number other than the one the client wrote"),
+                    (Err(e), None) => assert!(is_parse_error_for(e, "a", $tyname), "malformed number: wrong error kind"),
+                    (Ok(_), None) => assert!(false, "a malformed number was accepted"),
+                    (Err(_), Some(_)) => assert!(false, "a well-formed number was rejected"),
+                }
+                kani::cover!(r.is_err(), "some input is rejected");
+                kani::cover!(matches!(&r, Ok(o) if o.a as i128 == <$ty>::MAX as i128), "the largest value is accepted");
+                std::mem::forget(r);
+            }
+        };
+    }
+    wide_value_law!(law_u64, u64, "u64", false, 20);
+    wide_value_law!(law_i64, i64, "i64", true, 20);
 
     int_value_law!(law_u8, u8, "u8", false, 3);
     int_value_law!(law_i8, i8, "i8", true, 4);
@@ -163,6 +217,82 @@ mod verif_harness {
     #[kani::stub(std::fmt::format, fmt_stub)]
     fn c15_value_i32() {
         law_i32()
+    }
+
+    // @tier quick
+    // @obligation every ASCII value of 0..=20 bytes put into a `u64` field: exact value or ParseErrorAtKey{key,"u64"}; no panic (extreme numbers: 18446744073709551615 / ...616)
+    // @bounds 1 parameter, value length 0..=20 bytes
+    // @functions ValueDeserializer::deserialize_u64 (parse_value!)
+    // @timeout 2400
+    // @mem 30
+    #[kani::proof]
+    #[kani::unwind(22)]
+    #[kani::stub(std::fmt::format, fmt_stub)]
+    fn c15_value_u64() {
+        law_u64()
+    }
+
+    // @tier quick
+    // @obligation every ASCII value of 0..=20 bytes put into an `i64` field: exact value or ParseErrorAtKey{key,"i64"}; no panic (both overflow boundaries)
+    // @bounds 1 parameter, value length 0..=20 bytes
+    // @functions ValueDeserializer::deserialize_i64 (parse_value!)
+    // @timeout 2400
+    // @mem 30
+    #[kani::proof]
+    #[kani::unwind(22)]
+    #[kani::stub(std::fmt::format, fmt_stub)]
+    fn c15_value_i64() {
+        law_i64()
+    }
+
+    // @tier thorough
+    // @obligation every ASCII value of 0..=39 bytes put into a `u128` field: exact value or ParseErrorAtKey{key,"u128"}; no panic (340282366920938463463374607431768211455 and one more)
+    // @bounds 1 parameter, value length 0..=39 bytes; the reference reader uses checked u128 arithmetic
+    // @functions ValueDeserializer::deserialize_u128 (parse_value!)
+    // @timeout 7200
+    // @mem 40
+    #[kani::proof]
+    #[kani::unwind(41)]
+    #[kani::stub(std::fmt::format, fmt_stub)]
+    fn c15_value_u128() {
+        #[derive(Deserialize)]
+        struct One {
+            a: u128,
+        }
+        let mut buf = [0u8; 39];
+        let s = sym_ascii::<39>(&mut buf);
+        let params: [(&str, Cow<'_, str>); 1] = [("a", Cow::Borrowed(s))];
+        let r = One::deserialize(PathDeserializer::new(&params));
+        let b = s.as_bytes();
+        let want: Option<u128> = (|| {
+            if b.is_empty() {
+                return None;
+            }
+            let start = if b[0] == b'+' { 1 } else { 0 };
+            if start == b.len() {
+                return None;
+            }
+            let mut acc: u128 = 0;
+            let mut i = start;
+            while i < b.len() {
+                let c = b[i];
+                if !(b'0'..=b'9').contains(&c) {
+                    return None;
+                }
+                acc = acc.checked_mul(10)?.checked_add((c - b'0') as u128)?;
+                i += 1;
+            }
+            Some(acc)
+        })();
+        match (&r, want) {
+            (Ok(o), Some(v)) => assert!(o.a == v, "the field holds a number other than the one the client wrote"),
+            (Err(e), None) => assert!(is_parse_error_for(e, "a", "u128"), "malformed number: wrong error kind"),
+            (Ok(_), None) => assert!(false, "a malformed number was accepted"),
+            (Err(_), Some(_)) => assert!(false, "a well-formed number was rejected"),
+        }
+        kani::cover!(matches!(&r, Ok(o) if o.a == u128::MAX), "u128::MAX is accepted");
+        kani::cover!(r.is_err(), "some input is rejected");
+        std::mem::forget(r);
     }
 
     // @tier quick
